@@ -182,10 +182,9 @@ Lemma apply_rule_area nn straight re start e (cs : list pt) c :
   apply_rule nn straight re = DSub start e -> length cs = nn -> (start < nn)%nat ->
   children_area cs c start e = poly_area cs.
 Proof.
-  intros [d Hin] Ha Hl Hs. destruct re as [rule e']. unfold apply_rule in Ha. cbn [fst snd] in Hin.
-  destruct (match rule with StraightFirst => hd_error straight | StartAfterGap => start_after_gap nn straight end);
-    [|discriminate]. inversion Ha; subst.
-  apply (decompose_table_area_gen _ _ _ _ _ Hin); auto.
+  intros [d Hin] Ha Hl Hs. destruct (apply_rule_cases _ _ _ _ _ Ha) as [->|[-> ->]].
+  - apply (decompose_table_area_gen _ _ _ _ _ Hin); auto.
+  - subst nn. apply triangulate_fan_area_.
 Qed.
 Lemma decompose_column_area_ (cs : list pt) (c : pt) (straight : list nat) start e :
   decompose_model (length cs) straight = DSub start e -> (start < length cs)%nat ->
